@@ -101,19 +101,28 @@ class C18(verif.Spec):
     harness = "proxyq_harness"
     harness_link_lib = True
     timeout_per_case = 0.5
-    partial_note = ("Proved for the single-threaded daemon with a select()-capable capture device: queue, reference counts, "
-                    "cursors, overflow, service union, device open/close, per-client filter, the write-buffer/EAGAIN path. NOT "
-                    "covered by the theorems: the acquisition thread (devices without select) with its mutex order and lost "
-                    "wake-ups, the scheduling of real client processes, kernel socket behaviour (delivery order of a stream "
-                    "socket is assumed), raw VBI services, channel tokens (C19), malloc failure, more than one device. "
-                    "each_frame_once_in_order is stated through ghost logs kept in the model state; the two-run form of "
-                    "stalled_client_isolated is kept as an open statement, its one-run form is proved.")
-    assumptions = ["the capture device grants `services & supported(strict)`, a fixed function while clients hold queued frames",
-                   "the device returns fewer than count[0]+count[1] lines per frame (the daemon asserts <, the documented "
-                   "contract is <=: see known finding assert-line-count)",
+    partial_note = ("Proved (Props/C18Full.lean) about the FULL single-threaded daemon model, for every capture device whose answers "
+                    "do not change during a history and every history of connect / service request / close / socket credit / capture "
+                    "/ flush / main-loop iteration: reference counts exact, no assertion / dangling / NULL cursor, every frame "
+                    "captured for a client is queued or was taken exactly once in order (sent, or dropped by the client's own "
+                    "service change / disconnect, a flush, or an overflow that finds that client >= 8 frames behind), device open "
+                    "iff somebody is subscribed with all_services = union of the grants. The model is tied to the real daemon by the "
+                    "correspondence check of every audit line (select-capable fake device, virtual socket flow control). NOT covered "
+                    "by any theorem: the acquisition thread (devices without select) with its mutex order and lost wake-ups - two "
+                    "genuine races were found there by the runtime stage (D5, D6) -, the scheduling of real client processes, kernel "
+                    "socket behaviour (delivery order of a stream socket is assumed), a device whose grants change under connected "
+                    "clients (defect D7 lives exactly there), raw VBI services, channel tokens (C19), malloc failure, more than one "
+                    "device. The link from a `sent` fate to the bytes the client reads is function-level (sent_message_exact + "
+                    "filter_exact_repaired) plus the oracle. The literal two-run form of stalled_client_isolated is refuted as a "
+                    "modelling artefact (stalled_client_isolated_naive_false); the one-run form and a two-run corollary are proved. "
+                    "The runtime stage (real daemon process, acquisition thread variant, real proxy-client processes) samples a few "
+                    "dozen schedules per run and proves nothing.")
+    assumptions = ["the capture device grants `services & supported(strict)`, the same function throughout a history (theorems); the "
+                   "harness can re-program it (`dev` op): there the oracle only checks structure, order, exactly-once",
+                   "the device returns at most count[0]+count[1] lines per frame",
                    "a stream socket delivers the bytes of send() in order",
                    "clients send well-formed CONNECT_REQ / SERVICE_REQ / CLOSE_REQ with strict in -1..2 (malformed messages are C19)"]
-    trusted_base = ["translate/gen_proxyq.py (probe compiled against /repo + four source-shape facts; cross-checked by the `consts` op)",
+    trusted_base = ["translate/gen_proxyq.py (probe compiled against /repo + five source-shape facts; cross-checked by the `consts` op)",
                     "harness/proxyq_harness.c (fake capture device, virtual socket flow control via send()/accept()/select()) "
                     "+ lean/Driver/ProxyQ.lean: correspondence of every audit line",
                     "the pointer abstraction of the model: a cursor is its distance from the queue tail"]
@@ -285,7 +294,12 @@ class C18(verif.Spec):
         return cases
 
     def extra_checks(self, ctx):
-        """a harness process that dies (the two known crashes of the corpus) cannot remove its socket directory"""
+        """1. a harness process that dies (the known crashes of the corpus) cannot remove its socket directory.
+        2. RUNTIME STAGE (support, not proof): the real daemon as its own process (harness/proxyq_mp.c: real select; in the
+        `thread` variant the daemon's acquisition thread) and real client processes (harness/proxyq_mpclient.c with
+        src/proxy-client.c), driven through scripted schedules by lib/proxyq_mp.py; every client's received frames are judged
+        against the scripted source (in order, exactly once, capture timestamp, exactly the lines of its granted services,
+        nothing lost by a client that keeps up, device open/close/union)."""
         import glob, shutil, time
         for d in glob.glob("/tmp/proxyq.??????"):
             try:
@@ -293,7 +307,35 @@ class C18(verif.Spec):
                     shutil.rmtree(d, ignore_errors=True)
             except OSError:
                 pass
-        return []
+        if ctx.get("replay") or os.environ.get("VERIF_C18_RUNTIME", "1") == "0":
+            self.extra_coverage["runtime_stage"] = "not run (replay, or VERIF_C18_RUNTIME=0)"
+            return []
+        out = []
+        try:
+            import proxyq_mp
+            seed = ctx["rng"].randrange(1, 1 << 16)
+            viol, cov = proxyq_mp.run_runtime_stage(ctx["tier"], seed, log=lambda *a: None)
+            cov["schedule_seed_base"] = seed
+            cov["hangs_not_reproduced"] = 0
+            for what, lines in viol:
+                m = re.match(r"runtime: (\w+)/(\w+) seed=(\d+): hang", what)
+                if m:
+                    # a missed deadline on a loaded machine: the schedule is run once more alone; a real hang comes back
+                    v2, _ = proxyq_mp.run_runtime_stage(ctx["tier"], seed, log=lambda *a: None,
+                                                        schedule=(m.group(1), m.group(2), int(m.group(3))), jobs=1)
+                    if not v2:
+                        cov["hangs_not_reproduced"] += 1
+                        continue
+                hdr = ["# runtime stage (real daemon process + real proxy-client processes), not an op script:"]
+                m2 = re.match(r"runtime[^:]*: (\w+)/(\w+) seed=(\d+)", what)
+                if m2:
+                    hdr.append("# replay: python3 lib/proxyq_mp.py --variant %s --kind %s --schedule-seed %s -v" % m2.groups())
+                out.append((what, hdr + ["# " + l for l in lines[:400]]))
+            self.extra_coverage["runtime_stage"] = cov
+        except Exception as ex:      # the stage is support: if it cannot run at all, say so loudly but do not invent a violation
+            self.extra_coverage["runtime_stage"] = {"error": repr(ex)}
+            out.append(("runtime: the runtime stage could not run: %r" % (ex,), ["# " + repr(ex)]))
+        return out
 
     def classify(self, case):
         kinds = [l.split()[0] for l in case]
@@ -357,13 +399,15 @@ class C18(verif.Spec):
             return "proxyq:" + what.split(":")[0]
         if what.startswith("runtime acq-thread-link:"):
             return "proxyq:mp:acq-thread-link"
+        if what.startswith("runtime acq-thread-forcefree:"):
+            return "proxyq:mp:acq-thread-forcefree"
         if what.startswith("runtime"):
             return "proxyq:mp:" + re.sub(r"\s+", " ", re.sub(r"0x[0-9a-f]+|\d+", "N", what[8:]))[:80]
         if what.startswith("crash of the real code"):
             kinds = [l.split()[0] for l in case]
             reconf = "dev" in kinds and "conn" in kinds[:kinds.index("dev")]
             if reconf and ("p_proxy_dev->p_sliced == p_buf" in what or "heap-use-after-free" in what):
-                # D6: the device was re-programmed under connected clients; a client whose grant became empty kept
+                # D7: the device was re-programmed under connected clients; a client whose grant became empty kept
                 # its cursor: the next release trips the assertion (or reads a buffer freed by stop_acquisition)
                 return "proxyq:grant-lost"
             if "line_count < p_buf->max_lines" in what:
